@@ -201,6 +201,44 @@ func truncRule(c *core.Ctx, p *pduInfo) {
 	for _, o := range p.Dec.Opaque {
 		bad = "decoder contains a construct the extractor does not understand: " + o
 	}
+	// the reader's error is read while the reader still holds it: Release clears the error, so a Release that is not
+	// deferred and comes before the Error() whose value is returned turns every truncated image into a success
+	if fn := c.Prog.SSAFunc(p.Methods["IDecode"]); fn != nil && bad == "" {
+		var releases, errs []*ssa.Call
+		for _, b := range fn.Blocks {
+			for _, ins := range b.Instrs {
+				call, ok := ins.(*ssa.Call)
+				if !ok || call.Call.StaticCallee() == nil || call.Call.StaticCallee().Signature.Recv() == nil {
+					continue
+				}
+				if nt := namedOfType(call.Call.StaticCallee().Signature.Recv().Type()); nt == nil || nt.Obj().Name() != "Reader" {
+					continue
+				}
+				switch call.Call.StaticCallee().Name() {
+				case "Release":
+					releases = append(releases, call)
+				case "Error":
+					errs = append(errs, call)
+				}
+			}
+		}
+		for _, r := range releases {
+			for _, e := range errs {
+				if len(r.Call.Args) == 0 || len(e.Call.Args) == 0 || r.Call.Args[0] != e.Call.Args[0] {
+					continue
+				}
+				before := false
+				if r.Block() == e.Block() {
+					before = instrIndex(r) < instrIndex(e)
+				} else {
+					before = r.Block().Dominates(e.Block())
+				}
+				if before {
+					bad = fmt.Sprintf("the reader is released at %s before its error is read at %s: Release clears the error, a truncated image is reported as success", c.Prog.Pos(r.Pos()), c.Prog.Pos(e.Pos()))
+				}
+			}
+		}
+	}
 	c.Decide(bad == "", "C03-TRUNC", key, c.Prog.Pos(p.Dec.Decl.Pos()), "truncated input => error", bad)
 }
 
